@@ -155,13 +155,21 @@ impl Styles {
             let font_id = cell_xf.font_id as usize;
             let num_fmt_id = cell_xf.num_fmt_id;
             let quote_prefix = cell_xf.quote_prefix;
+            // An xf whose ids point outside the tables (possible in an imported file) matches nothing
+            let (Some(fill), Some(font), Some(border)) = (
+                self.fills.get(fill_id),
+                self.fonts.get(font_id),
+                self.borders.get(border_id),
+            ) else {
+                continue;
+            };
             if style
                 == &(Style {
                     alignment: cell_xf.alignment.clone(),
                     num_fmt: get_num_fmt(num_fmt_id, &self.num_fmts),
-                    fill: self.fills[fill_id].clone(),
-                    font: self.fonts[font_id].clone(),
-                    border: self.borders[border_id].clone(),
+                    fill: fill.clone(),
+                    font: font.clone(),
+                    border: border.clone(),
                     quote_prefix,
                 })
             {
@@ -475,8 +483,10 @@ impl Styles {
     }
 
     pub(crate) fn style_is_quote_prefix(&self, index: i32) -> bool {
-        let cell_xf = &self.cell_xfs[index as usize];
-        cell_xf.quote_prefix
+        match self.cell_xfs.get(index as usize) {
+            Some(cell_xf) => cell_xf.quote_prefix,
+            None => false,
+        }
     }
 
     pub(crate) fn get_style(&self, index: i32) -> Result<Style, String> {
@@ -491,12 +501,16 @@ impl Styles {
         let quote_prefix = cell_xf.quote_prefix;
         let alignment = cell_xf.alignment.clone();
 
+        let fill = self.fills.get(fill_id).ok_or("Invalid fill id")?;
+        let font = self.fonts.get(font_id).ok_or("Invalid font id")?;
+        let border = self.borders.get(border_id).ok_or("Invalid border id")?;
+
         Ok(Style {
             alignment,
             num_fmt: get_num_fmt(num_fmt_id, &self.num_fmts),
-            fill: self.fills[fill_id].clone(),
-            font: self.fonts[font_id].clone(),
-            border: self.borders[border_id].clone(),
+            fill: fill.clone(),
+            font: font.clone(),
+            border: border.clone(),
             quote_prefix,
         })
     }
